@@ -494,6 +494,9 @@ def handleCore (mac : Bool) (args : List String) (obs : String) : Option Reply :
     perItem ++ extra.map fun e => s!"{e.modPath}::{e.raw} is registered but not an item of the program"
   let pr := toProgram ps.items ps.order
   let fbits (s : String) : Option Nat := ((ps.fb.find? (·.1 = s)).map (·.2)).join
+  let cfgKV0 : List (String × String) := (splitBar args).headD [] |>.filterMap fun t => match t.splitOn "=" with
+    | k :: v => some (k, "=".intercalate v)
+    | _ => none
   let r := run pr ps.cfg fbits
   -- argument lists are evaluated once per registered benchmark with `args`
   -- (the macros share one argument list among the instantiations of a generic benchmark: one
@@ -517,7 +520,7 @@ def handleCore (mac : Bool) (args : List String) (obs : String) : Option Reply :
   let actName := match ps.act with
     | "bench" => "bench" | "test" => "test" | "list" => "list" | "terse" => "terse"
     | _ => "bench"          -- the api forms call `config_with_args` without an action flag: the default is `bench`... see below
-  let cfgDump := s!"act={ps.cfgAct};timer=os;sort={ps.sortName};rev={if ps.cfg.rev then 1 else 0};ign={ps.ignName};bytes=decimal;opts={(showOpts ps.cfg.runtime).replace " " ","}"
+  let cfgDump := s!"act={ps.cfgAct};timer={((cfgKV0.find? (·.1 = "tm")).map (·.2)).getD "os"};sort={ps.sortName};rev={if ps.cfg.rev then 1 else 0};ign={ps.ignName};bytes={((cfgKV0.find? (·.1 = "bf")).map (·.2)).getD "decimal"};opts={(showOpts ps.cfg.runtime).replace " " ","}"
   let _ := actName
   -- benchmarks whose function takes no `Bencher` cannot tell runs apart: total calls per case
   let isNb (slot : Nat) : Bool := nbSlots.contains slot
